@@ -202,6 +202,13 @@ func (p precompileFunToken) sendToBank(
 		// any operation that has the potential to use Bank send methods. This will
 		// guarantee that [evmkeeper.Keeper.SetAccBalance] journal changes are
 		// recorded if wei (NIBI) is transferred.
+		// The bank supply is a 256-bit integer whose addition panics on overflow.
+		supplyAfter := new(big.Int).Add(
+			p.evmKeeper.Bank.GetSupply(ctx, funtoken.BankDenom).Amount.BigInt(), gotAmount,
+		)
+		if supplyAfter.BitLen() > math.MaxBitLen {
+			return nil, fmt.Errorf("mint of %s would overflow the bank supply of %s", gotAmount, funtoken.BankDenom)
+		}
 		err = p.evmKeeper.Bank.MintCoins(ctx, evm.ModuleName, sdk.NewCoins(coinToSend))
 		if err != nil {
 			return nil, fmt.Errorf("mint failed for module \"%s\" (%s): contract caller %s: %w",
